@@ -921,3 +921,185 @@ def text_structure(fam, args):
                 elif o != l and not extra.get("collapse"):
                     why.append("whitespace changed although no stage may collapse it: %r -> %r" % (l, o))
     return dict(violated=bool(why), observed=outs, detail="; ".join(why))
+
+
+@register("cli_contract")
+def cli_contract(fam, args):
+    """C19: main() below _parse_args with a given Namespace (anonymize_files recorded), or host_bits(text), or the parser defaults"""
+    import argparse
+    what, fields = args["what"], args["fields"]
+    RFC = ["10.0.0.0/8", "172.16.0.0/12", "192.168.0.0/16"]
+    if what == "hostbits":
+        t = fields["text"]
+        try:
+            r = fam.cli.host_bits(t)
+            raised = False
+        except Exception:
+            r, raised = None, True
+        try:
+            v = int(t)
+        except ValueError:
+            v = None
+        ok_in = v is not None and 0 <= v <= 32
+        bad = (raised and ok_in) or (not raised and (not ok_in or r != v))
+        return dict(violated=bad, observed=r, detail="host_bits(%r) -> %r raised=%r" % (t, r, raised))
+    if what == "defaults":
+        d = vars(fam.cli._parse_args(["-i", "in", "-o", "out"]))
+        bad = d.get("preserve_host_bits") != 8 or sorted((d.get("preserve_prefixes") or "").split(",")) != sorted(["0.0.0.0/1", "128.0.0.0/2", "192.0.0.0/3", "224.0.0.0/4"] + RFC)
+        return dict(violated=bad, observed={k: d.get(k) for k in ("preserve_host_bits", "preserve_prefixes")}, detail="parser defaults")
+    calls = []
+    saved = (fam.cli._parse_args, fam.cli.anonymize_files)
+    fam.cli._parse_args = lambda argv: argparse.Namespace(**fields)
+    fam.cli.anonymize_files = lambda *a, **k: calls.append((a, k))
+    try:
+        try:
+            fam.cli.main([])
+            exc = None
+        except Exception as e:
+            exc = e
+    finally:
+        fam.cli._parse_args, fam.cli.anonymize_files = saved
+    f = fields
+    must_reject = (not f["input"]) or (not f["output"]) or (f["undo"] and f["anonymize_ips"]) or (f["undo"] and f["salt"] is None) or (f["dump_ip_map"] is not None and not f["anonymize_ips"])
+    enabled = bool(f["as_numbers"]) or bool(f["sensitive_words"]) or f["anonymize_passwords"] or f["anonymize_ips"] or f["undo"]
+    why = []
+    if must_reject:
+        if exc is None or calls:
+            why.append("contradictory options not rejected before anything is written")
+    elif not enabled:
+        if exc is not None or calls:
+            why.append("nothing enabled but something ran / raised")
+    else:
+        if exc is not None or len(calls) != 1:
+            why.append("valid combination rejected or not run exactly once (%r)" % (exc,))
+        else:
+            names = ["input_path", "output_path", "anon_pwd", "anon_ip", "salt", "dumpfile", "sensitive_words", "undo_ip_anon", "as_numbers", "reserved_words",
+                     "preserve_prefixes", "preserve_networks", "preserve_suffix_v4", "preserve_suffix_v6"]
+            c = dict(zip(names, calls[0][0]))
+            c.update(calls[0][1])
+            split = lambda v: None if v is None else v.split(",")
+            nets = split(f["preserve_addresses"])
+            if f["preserve_private_addresses"]:
+                nets = (nets or []) + RFC
+            want = dict(anon_pwd=f["anonymize_passwords"], anon_ip=f["anonymize_ips"], salt=f["salt"], sensitive_words=split(f["sensitive_words"]), undo_ip_anon=f["undo"],
+                        as_numbers=split(f["as_numbers"]), reserved_words=split(f["reserved_words"]), preserve_prefixes=split(f["preserve_prefixes"]),
+                        preserve_suffix_v4=f["preserve_host_bits"], preserve_suffix_v6=f["preserve_host_bits"], dumpfile=f["dump_ip_map"])
+            for k, v in want.items():
+                if c.get(k) != v:
+                    why.append("%s=%r, documented mapping gives %r" % (k, c.get(k), v))
+            g = c.get("preserve_networks")
+            if (None if g is None else sorted(g)) != (None if nets is None else sorted(nets)):
+                why.append("preserve_networks=%r, documented mapping gives %r" % (g, nets))
+    return dict(violated=bool(why), observed=dict(raised=type(exc).__name__ if exc else None, calls=len(calls)), detail="; ".join(why))
+
+
+@register("compose")
+def compose(fam, args):
+    """C15: FileAnonymizer with a feature subset vs the chain of single-feature FileAnonymizers (same salt and options)"""
+    lines, subset, o, undo, what = args["lines"], args["subset"], args["opt"], args["undo"], args["what"]
+
+    def kw_for(sub):
+        kw = dict(anon_pwd="pwd" in sub, anon_ip=("ip" in sub and not undo), undo_ip_anon=("ip" in sub and undo), salt=o["salt"])
+        if "words" in sub:
+            kw["sensitive_words"] = ["lon", "db8"]
+        if "as" in sub:
+            kw["as_numbers"] = ["65001", "650"]
+        if "ip" in sub:
+            kw.update(preserve_suffix_v4=o["suffix4"], preserve_suffix_v6=o["suffix6"], preserve_networks=o["networks"], preserve_prefixes=o["prefixes"])
+        if o["reserved"]:
+            kw["reserved_words"] = list(o["reserved"])
+        return kw
+
+    def run(fa, ls):
+        out = io.StringIO()
+        fa.anonymize_io(io.StringIO("".join(ls)), out)
+        return out.getvalue().splitlines(True)
+    _reseed_passlib()
+    try:
+        if what == "streams":
+            fa = fam.files.FileAnonymizer(**kw_for(subset))
+            a = run(fa, lines[:2]) + run(fa, lines[2:])
+            b = run(fam.files.FileAnonymizer(**kw_for(subset)), lines)
+        else:
+            a = run(fam.files.FileAnonymizer(**kw_for(subset)), lines)
+            b = lines
+            for f in ["pwd", "ip", "words", "as"]:
+                if f in subset:
+                    b = run(fam.files.FileAnonymizer(**kw_for([f])), b)
+    except Exception as e:
+        return dict(violated=True, observed=["EXC:%s" % type(e).__name__], detail=repr(e))
+    diff = [(x, y) for x, y in zip(a, b) if x != y]
+    return dict(violated=(a != b), observed=a, detail="first difference: %r" % (diff[:1],))
+
+
+def _expected_ip_line(fam, family, line):
+    """independent token scanner + reference map (fresh anonymizer of the real class for the value mapping only)"""
+    import ipaddress
+    import re
+    cfg = dict(prefixes=[], networks=None, B=0)
+    out, i, kinds = [], 0, []
+    alnum = "abcdefghijklmnopqrstuvwxyzABCDEFGHIJKLMNOPQRSTUVWXYZ0123456789"
+    tchars = alnum + (":" if family == 6 else ".")
+    while i < len(line):
+        if line[i] in tchars:
+            j = i
+            while j < len(line) and line[j] in tchars:
+                j += 1
+            tok = line[i:j]
+            if family == 6:
+                m = re.match(r"(\.\d{1,3}){3}(?![0-9A-Za-z:.])", line[j:])
+                if m:
+                    try:
+                        ipaddress.IPv6Address(tok + m.group(0))
+                        tok, j = tok + m.group(0), j + len(m.group(0))
+                    except ValueError:
+                        pass
+            val = None
+            if family == 4:
+                parts = tok.split(".")
+                if len(parts) == 4 and all(p.isdigit() and p.isascii() for p in parts) and all(int(p) <= 255 for p in parts):
+                    val = int(ipaddress.IPv4Address(".".join(str(int(p)) for p in parts)))
+            else:
+                try:
+                    val = int(ipaddress.IPv6Address(tok))
+                except ValueError:
+                    val = None
+            if val is None:
+                out.append(tok)
+                kinds.append("kept")
+            else:
+                an = _mk_ip(fam, cfg, family)
+                if family == 4 and not an.should_anonymize(val):
+                    out.append(tok)
+                    kinds.append("mask")
+                else:
+                    img = an.anonymize(val)
+                    out.append(str(ipaddress.IPv4Address(img) if family == 4 else ipaddress.IPv6Address(img)))
+                    kinds.append("replaced")
+            i = j
+        else:
+            out.append(line[i])
+            i += 1
+    return "".join(out), kinds
+
+
+@register("ip_token")
+def ip_token(fam, args):
+    """C06: anonymize_ip_addr on a line vs the independent token scanner"""
+    family, kind = args["family"], args["kind"]
+    text = args.get("text")
+    if text is None:
+        return dict(violated=True, observed=None, detail="structural difference of the pattern's delimiters")
+    line = text if kind == "line" else "x %s y\n" % text
+
+    def run():
+        an = _mk_ip(fam, dict(prefixes=[], networks=None, B=0), family)
+        try:
+            got = fam.ip.anonymize_ip_addr(an, line, False)
+        except Exception as e:
+            got = "EXC:%s" % type(e).__name__
+        want, kinds = _expected_ip_line(fam, family, line)
+        return got, want, kinds
+    (got, want, kinds), misses = _with_md5(fam, args, run)
+    k = "replaced" if "replaced" in kinds else ("mask" if "mask" in kinds else "kept")
+    return dict(violated=(got != want), observed=got, kind=k, detail="%r -> %r, independent scanner expects %r" % (line, got, want), misses=misses)
